@@ -86,8 +86,8 @@ type Normalizer struct {
 	// variable is used more than once (hand-written code: allocation/mutation identity matters).
 	KeepShared bool
 	uses       map[*types.Var]int
-	inLoop int
-	loopVars map[*types.Var]bool // variables assigned inside a loop: never inlined
+	inLoop     int
+	loopVars   map[*types.Var]bool // variables assigned inside a loop: never inlined
 	// Imperative is set when the function being normalised contains loops or non-rebinding assignments.
 	Imperative bool
 	depth      int
